@@ -107,6 +107,29 @@ extra = {
  "C19": " Relational operators over empty / disjoint / clustered operands, boundary operands of every statement kind, every output format with values that are awkward to lay out, unknown and outer names in every clause, structured JSON / JSON Lines documents (nested, empty, scalar where an array is expected) read through walking queries.",
  "C20": " FOR UPDATE over joins, alternative spellings of the table path, JSON files read through several JSON queries, REPLACE and a second row under an existing key among A's statements.",
 }
+# rounds 11 and 12
+extra2 = {
+ "C01": " COMMIT / ROLLBACK inside a block that shadows a changed temporary table; session output options set by the procedure.",
+ "C02": " Header-less CSV/TSV files and CRLF fixed-length files updated in place keep their line break; a COMMIT retried after a refused COMMIT in one session writes what the same changes write in one go.",
+ "C03": " Recursive CTEs whose iterations repeat rows, BETWEEN with column bounds (NULL for some rows), the qualifier of alias.* in upper case.",
+ "C04": " Datetime texts in different layouts that denote one instant are one value (sessions run in UTC), also under a datetime format of the session's own; ALL set operators by bucket counts; aggregates next to DISTINCT aggregates of the same column; aggregates of constants.",
+ "C05": " Data-changing statements run from functions called once per row by a parallel query; one table under two aliases as targets (known finding).",
+ "C06": " The comparison laws under datetime formats the session adds (also digits-only formats); INTEGER(x) against INTEGER(FLOAT(x)).",
+ "C07": " Cut queries as operands of IN / NOT IN / ANY.",
+ "C08": " Statements cancelled at the N-th poll of their context (first, second, middle and the last polls), two-target UPDATE / DELETE, tables of thousands of rows.",
+ "C09": " Stress rounds with slow holders (holds above one second, releases stretched between close and unlink); processes inserting into the table they read the next number from.",
+ "C11": " SIGHUP at every hook point, a standard-output reader that goes away (broken pipe), the N-th open refused (EMFILE/ENOSPC/EACCES/ENAMETOOLONG), tables whose file names leave no room for control-file names.",
+ "C12": " Amounts whose sums are inexact in binary (SUM/AVG/STDEV over tables, groups, partitions, frames); tables made of equally long sorted runs.",
+ "C14": " Two readings of one aggregate around another (DISTINCT / ordered) aggregate in one statement; read-only statements in front of a change inside a nested block are transparent.",
+ "C15": " Expressions evaluated through queries, functions declared inside functions, temporary tables shadowing outer ones, functions whose locals carry names the calling query uses.",
+ "C16": " Offsets at the integer bounds; cursors opened in nested blocks that shadow names of the cursor's query.",
+ "C17": " Frame offsets up to the largest integer, DISTINCT aggregates over frames, nested analytic functions executed repeatedly, functions differing in the case of a literal.",
+ "C18": " Statements laid out with comments over CR / LF / CRLF line breaks: the error position equals the one of the comment-free layout.",
+ "C19": " One file reached through every table-object form in one transaction, tables without columns as operands and whole rows where one value is expected, repeated names in name lists, window frames that hold no row, wildcard patterns and a data-changing statement called from a data-changing statement under a watchdog (the latter a known finding).",
+ "C20": " Statements evaluated by several goroutines that load a table through a sub-query (B commits at the moment a second load would start); describing commands (SHOW FIELDS / SHOW TABLES) in A's histories.",
+}
+for k, add in extra2.items():
+    extra[k] = extra.get(k, "") + add
 for k, add in extra.items():
     lvl, ref, text, note, tech = checks[k]
     checks[k] = (lvl, ref, text + add, note, tech)
